@@ -21,16 +21,14 @@ NO_VERDICT = {
     "StaticElement<Modular<double>>": "element wrapper whose domain is a documented class static (setDomain): not a domain object",
     "GFqKronecker<TT,Ints>": "gfqkronecker.h does not compile in this tree (missing givzpz.h): described by a source scan only",
 }
-# lazily filled caches (const accessor fills an own member through a cast): the cached value is a function of the construction
-# parameters, which the footprint model cannot express.  Methods touching them are OUTSIDE the proved fragment (history harness
-# only).  Anything not listed here that writes an own member on a const path is reported.
-ACCEPTED_CACHES = {
-    "IntRNSsystem<vector>": {"_ck", "_prod", "_primes"},
-    "RNSsystem<Integer,Modular<double>>": {"_ck", "_primes"},
-}
+# A const method that writes an own member (mutable / cast / through a pointer: a lazily filled cache) is OUTSIDE the proved fragment
+# (the footprint model cannot express "the cached value is a function of the construction parameters"); none is accepted: the lazy
+# caches IntRNSsystem/RNSsystem used to have were removed from the library (a42d959), a re-introduced one is reported.
+ACCEPTED_CACHES = {}
 
 HIST_CLASSES = [
     "Modular<int32_t>", "Modular<uint32_t>", "Modular<int64_t>", "Modular<uint64_t>", "Modular<float>", "Modular<double>",
+    "Modular<int8_t>", "Modular<uint8_t>", "Modular<int16_t>", "Modular<uint16_t>", "ModularExtended<double>", "ModularExtended<float>",
     "Modular<Integer>", "Modular<ruint<7>>", "ModularBalanced<int32_t>", "ModularBalanced<int64_t>", "ModularBalanced<float>",
     "ModularBalanced<double>", "Montgomery<int32_t>", "Montgomery<ruint<7>>", "Modular<Log16>", "GFqDom<int64_t>", "GFqDom<int32_t>",
     "GFqExtFast<int64_t>", "GFqExt<int64_t>", "Extension<GFqDom<int64_t>>", "Poly1Dom<Modular<double>,Dense>",
@@ -40,8 +38,40 @@ HIST_CLASSES = [
 # constructors that draw a random irreducible polynomial (generator seeded from the clock): no cross-process reference
 NON_ISO = {"Extension<GFqDom<int64_t>>", "GFqDom<int64_t>", "GFqDom<int32_t>", "GFqExtFast<int64_t>", "GFqExt<int64_t>",
            "Poly1Dom<GFqDom<int64_t>,Dense>", "Poly1FactorDom<GFqDom<int64_t>,Dense>"}
+# ... except through the overloads with a prescribed irreducible polynomial (and generator): those constructions are deterministic,
+# so every object built that way in any history is compared with the same construction in an otherwise empty process
+DET_VARIANTS = {"GFqDom<int64_t>": (1, 2, 4, 5), "GFqDom<int32_t>": (1, 2, 4, 5), "GFqExtFast<int64_t>": (1,),
+                "Poly1Dom<GFqDom<int64_t>,Dense>": (2,), "Poly1FactorDom<GFqDom<int64_t>,Dense>": (2,), "Extension<GFqDom<int64_t>>": (2,)}
+NVARIANTS = 6          # construct events carry q = P + 4 * V: parameter set P (0..3), constructor overload V (harness/c16_probes.h make())
+VARIANT_NAMES = {0: "usual constructor", 1: "second overload (Residu_t / prescribed irreducible / (p,e,Indeter) / (Poly1Dom,generator) / container<TT> / default+setPrimes)",
+                 2: "third overload (Source = Integer / prescribed irreducible and generator / (Pol_t, irreducible) / base field with prescribed polynomials)",
+                 3: "default constructor then assignment from a temporary", 4: "Source = double / other Vector type (4 arguments)",
+                 5: "built for another modulus then assigned / Vector = deque (3 arguments)"}
+# expiry of the harness's own limits (CPU limit, wall-clock alarm, OOM killer): a statement about the tooling, never a violation by itself
+WATCHDOG = ("watchdog-cpu", "watchdog-wall", "skipped-after-watchdog", "signal-14", "signal-24", "signal-9")
+TOOLING_MARKS = ("[timeout after", "[timeout]", "Killed", "out of memory", "Out of memory", "virtual memory exhausted", "annot allocate memory",
+                 "No space left on device", "Resource temporarily unavailable", "fork: retry")
+
+
+def iso_ok(cls, q):
+    return cls not in NON_ISO or (q >> 2) in DET_VARIANTS.get(cls, ())
+
+
+def tooling_failure(text):
+    """does this log show that OUR tooling ran out of time / memory / disk (as opposed to rejecting the source)?"""
+    return any(m in (text or "") for m in TOOLING_MARKS)
+
+
+def inconclusive(chk, what, detail=""):
+    """a stream that could not be evaluated because of the tooling: recorded in the evidence, not a verdict"""
+    chk.cov.setdefault("inconclusive", []).append({"what": what, "detail": (detail or "")[-600:]})
+    chk.notes.append("INCONCLUSIVE (tooling): " + what)
+
+
 # classes with an in-place re-parameterisation (event sN:P): RNSsystem::setPrimes, Modular<T>::read(istream&), Modular<Log16>::read
-MUTABLE = ["Modular<int32_t>", "Modular<uint32_t>", "Modular<int64_t>", "Modular<uint64_t>", "Modular<float>", "Modular<double>",
+# (Modular<int8_t|uint8_t>::read extracts the modulus into an unsigned char, i.e. reads ONE CHARACTER: "(z, 11)" gives the ring modulo '1' = 49 --
+#  an input-format defect outside this property; the object it leaves is consistent, so the 8-bit rings are not driven through read)
+MUTABLE = ["ModularExtended<double>", "ModularExtended<float>", "Modular<int16_t>", "Modular<uint16_t>", "Modular<int32_t>", "Modular<uint32_t>", "Modular<int64_t>", "Modular<uint64_t>", "Modular<float>", "Modular<double>",
            "Modular<Integer>", "Modular<Log16>", "RNSsystem<Integer,Modular<double>>"]
 MUT_DIRECTED = [
     "c0:A s0:B", "c0:A s0:B s0:A", "c0:B s0:C s0:B s0:C", "c0:A s0:D s0:A", "c0:A s0:A", "c0:C s0:B s0:C",
@@ -51,11 +81,35 @@ MUT_DIRECTED = [
 GFQ_PARAMS = {0: (3, 2), 1: (5, 2), 2: (2, 4), 3: (7, 1)}          # as in harness/c16_history.C (GP, GE)
 
 
+POLY_VARIANTS = (1, 2, 4, 5)          # constructor overloads with a prescribed polynomial: parameter set 3 is GF(7^2) there
+
+
+def gfq_params(cls, q):
+    """(p, e) of the field built by constructor overload q >> 2 from parameter set q & 3 (harness/c16_probes.h make())"""
+    p, e = GFQ_PARAMS[q & 3]
+    if e == 1 and (cls.startswith("GFqExt") or (q >> 2) in POLY_VARIANTS):
+        e = 2
+    return p, e
+
+
+def pf_oracle(cls, q):
+    """specification of the arithmetic inside the prime subfield: the integers modulo p, whatever irreducible polynomial / generator was chosen"""
+    p, _ = gfq_params(cls, q)
+    out = []
+    for i in range(6):
+        for j in range(1, 4):
+            a, b = (i * 5 + 1) % p, (j * 3 + 2) % p
+            r = [(a + b) % p, (a * b) % p, (a - b) % p, (-a) % p]
+            t = ".".join(str(x) for x in r) + "."
+            if b:
+                t += str((a * pow(b, p - 2, p)) % p)
+            out.append(t)
+    return ";".join(out) + ";"
+
+
 def vecval_oracle(cls, p_idx):
     """specification of GFqDom::init(Rep&, Vector) for a polynomial of degree < e: its p-adic value"""
-    p, e = GFQ_PARAMS[p_idx & 3]
-    if cls.startswith("GFqExt") and e == 1:
-        e = 2
+    p, e = gfq_params(cls, p_idx)
     out = []
     for k in range(3):
         v = (2 + k) % p
@@ -70,15 +124,36 @@ def vecval_oracle(cls, p_idx):
 def generate(chk):
     """regenerate coq/C16/gen/*.v from the current source.  returns (descs, meta) or (None, None)"""
     descs, meta, err = om.build_descriptions()
+    if (err or not descs) and tooling_failure(err):
+        descs, meta, err = om.build_descriptions()          # once more
+    if (err or not descs) and tooling_failure(err):
+        inconclusive(chk, "object-model translator: clang ran out of time / memory; no description, no Coq decisions in this run", err)
+        return None, None
     if err or not descs:
         chk.broke("object-model translator failed on /repo's current source (harness/c16_inst.C no longer compiles under clang?)", err or "no description")
         return None, None
     if meta.get("missing"):
         chk.broke("object-model translator: classes missing from the AST dump: %s" % ", ".join(meta["missing"]))
     gen = os.path.join(vf.coq_dir(AREA), "gen")
-    vf.write_if_changed(os.path.join(gen, "Desc.v"), om.emit_coq(descs, meta))
-    vf.write_if_changed(os.path.join(gen, "Decide.v"), om.emit_decide(descs))
+    write_atomic_if_changed(os.path.join(gen, "Desc.v"), om.emit_coq(descs, meta))
+    write_atomic_if_changed(os.path.join(gen, "Decide.v"), om.emit_decide(descs))
     return descs, meta
+
+
+def write_atomic_if_changed(path, text):
+    """checks/C18.py regenerates the same files (same content on the same source): never leave a half-written file behind"""
+    try:
+        with open(path) as f:
+            if f.read() == text:
+                return False
+    except OSError:
+        pass
+    vf.mkdir(os.path.dirname(path))
+    tmp = "%s.tmp%d" % (path, os.getpid())
+    with open(tmp, "w") as f:
+        f.write(text)
+    os.replace(tmp, path)
+    return True
 
 
 def describe_for_evidence(descs):
@@ -89,7 +164,9 @@ def describe_for_evidence(descs):
         out[d["name"]] = {"members": len(d["members"]), "methods": len(d["methods"]), "const_methods": len(cm),
                           "claimed": sum(1 for m in cm if mi.claimed(m)), "self_contained": sum(1 for m in cm if mi.claimed(m) and mi.method_sc(m)),
                           "race_free": sum(1 for m in cm if mi.claimed(m) and mi.method_rf(m)),
-                          "randomised": sum(1 for m in cm if mi.randomized(m)), "source": d.get("source")}
+                          "randomised": sum(1 for m in cm if mi.randomized(m)), "source": d.get("source"),
+                          "constructors": len(d.get("ctors") or []), "constructor_effects": [list(e) for e in mi.ctor_eff], "constructors_pure": mi.ctor_pure(),
+                          "init_kinds": d.get("init_kinds"), "init_consistent": mi.init_consistent()}
     return out
 
 
@@ -130,6 +207,27 @@ def structural_c16(chk, descs):
             not_copied |= set(x for k, x in why if k == "reads-member-not-copied")
             not_assigned |= set(x for k, x in why if k == "reads-member-not-assigned")
             bad_rc |= set(x for k, x in why if k == "reads-shared-heap-with-bad-refcount")
+        # constructors: a function-local static / a mutable global touched while an object is built is state shared by all objects
+        if not mi.ctor_pure():
+            seen_ct = set()
+            for ct in d.get("ctors") or []:
+                fx = [e for e in om.norm_effects(d, ct.get("writes") or []) if e[0] not in ("RExcluded", "WOwn")]
+                if not fx:
+                    continue
+                kinds = sorted(set({"WStaticLocal": "static-local", "WStaticInit": "static-local", "WGlobal": "global-write", "RGlobal": "global-read"}.get(e[0], "effect") for e in fx))
+                names_ = sorted(set(e[1] for e in fx))
+                site = "%s::%s(%s)" % (ct.get("cls"), ct.get("cls"), ct.get("params", ""))
+                if site in seen_ct:
+                    continue
+                seen_ct.add(site)
+                chk.fail_input(site, "constructor-%s:%s" % ("+".join(kinds), ",".join(names_)),
+                               {"class": name, "constructor": site, "effects": [list(e) for e in fx], "via": [w.get("via") for w in ct.get("writes") or []][:4],
+                                "parameter_members": d.get("param_members")},
+                               "a constructor reads and writes only the object under construction and its arguments",
+                               "the constructor touches %s" % ", ".join(names_),
+                               "description generated from the source: the members of an object built through this constructor depend on state shared by all "
+                               "objects of the process (the first construction initialises a function-local static): C16_static_ctor_refuted / "
+                               "C16_static_parameter_init_refuted exhibit the failing history")
         for m in mi.mutator_offenders():
             miss = mi.mutator_missing(m)
             chk.fail_input(om.msite(m), "mutator-leaves:" + ",".join(miss),
@@ -176,7 +274,7 @@ def apply_event(live, e):
     k, n = e[0], int(e[1])
     live = dict(live)
     if k in "cs":
-        live[n] = int(e[3:])
+        live[n] = int(e[3:]) & 3
     elif k == "k":
         live[n] = live[int(e[3:])]
     elif k == "a":
@@ -323,7 +421,7 @@ def check_history(chk, cls, hist, steps, crash, iso):
         if k == "c":
             p = int(ev[3:])
             base = dict(objs.get(n, {}))
-            if cls not in NON_ISO and iso.get((cls, p)):
+            if iso.get((cls, p)):
                 base = dict(iso[(cls, p)])         # deterministic construction: the reference is the isolated process
             ref[n] = (p, base)
         elif k == "s":
@@ -346,14 +444,17 @@ def check_history(chk, cls, hist, steps, crash, iso):
                     continue          # crash inside this part: handled below
                 if part == "vecval":
                     e = vecval_oracle(cls, p)          # independent specification, not the object's own earlier answer
+                elif part == "pf":
+                    e = pf_oracle(cls, p)
                 if e is not None and h != e and part not in reported:
                     reported.add(part)
                     chk.fail_input("history:%s:%s" % (cls, part), klass_of(evs, idx, ev, o),
-                                   {"class": cls, "history": hist, "event_index": idx, "event": ev, "object": o, "lineage_param": p, "part": part},
+                                   {"class": cls, "history": hist, "event_index": idx, "event": ev, "object": o, "lineage_param": p & 3,
+                                    "constructor_overload": p >> 2, "part": part},
                                    e, h, "probe of object %d differs from its lineage's reference after event %s (replay: echo '%s %s' | C16_VERBOSE=1 c16_history)"
                                    % (o, ev, cls, hist))
-    if crash is not None and crash.startswith("skipped"):
-        return ncmp           # the harness stops forking a class after 4 crashed / hung children (already reported)
+    if crash is not None and (crash.startswith("skipped") or crash in WATCHDOG or crash == "no-such-constructor"):
+        return ncmp           # skipped after repeated crashes (already reported) / tooling limits (handled by the caller)
     if crash is not None:
         # which part was being computed?
         part, obj, ev = "?", None, (evs[len(steps)] if len(steps) < len(evs) else (last_ev or "?"))
@@ -377,76 +478,266 @@ def check_history(chk, cls, hist, steps, crash, iso):
     return ncmp
 
 
+def run_harness(binary, text, timeout, env=None):
+    """run the harness on a request list.  returns (rc, complete output lines, stderr); rc 124 = our own time-out"""
+    import subprocess
+    e = dict(os.environ)
+    e.update(env or {})
+    try:
+        pr = subprocess.run([binary], input=text, stdout=subprocess.PIPE, stderr=subprocess.PIPE, timeout=timeout, env=e,
+                            universal_newlines=True, errors="replace")
+        rc, out, err = pr.returncode, pr.stdout, pr.stderr
+    except subprocess.TimeoutExpired as ex:
+        out = ex.stdout or ""
+        out = out.decode("utf-8", "replace") if isinstance(out, bytes) else out
+        rc, err = 124, "[timeout after %ss]" % timeout
+    except OSError as ex:
+        rc, out, err = 125, "", "cannot start the harness: %s" % ex
+    lines = out.split("\n")
+    if lines and not out.endswith("\n"):
+        lines = lines[:-1]            # a truncated last line
+    return rc, [l for l in lines if l], err
+
+
 def run_parallel(binary, lines, jobs=6, timeout=3000):
-    """run the harness on chunks of the request list concurrently; returns (ok, output lines in request order, stderr)"""
+    """run the harness on chunks of the request list concurrently.  returns (output lines in request order, None where the harness
+    produced nothing, list of (rc, stderr) of chunks that did not finish)"""
     import threading
     n = max(1, min(jobs, len(lines) // 50 + 1))
     chunks = [lines[i::n] for i in range(n)]
     res = [None] * n
 
     def work(i):
-        res[i] = vf.run_lines(binary, "".join(chunks[i]), timeout=timeout)
+        res[i] = run_harness(binary, "".join(chunks[i]), timeout)
     ts = [threading.Thread(target=work, args=(i,)) for i in range(n)]
     for t in ts:
         t.start()
     for t in ts:
         t.join()
     out = [None] * len(lines)
-    err = ""
-    ok = True
+    bad = []
     for i in range(n):
         rc, o, e = res[i]
-        err += e or ""
         if len(o) != len(chunks[i]):
-            ok = False
-            continue
+            bad.append((rc, (e or "")[-300:]))
+            o = o[:len(chunks[i])]
         for j, l in enumerate(o):
-            out[i + j * n] = l
-    return ok, out, err
+            # every answer starts with the class name of its request: a line that does not is not an answer
+            if l.startswith(chunks[i][j].split(" ", 1)[0]):
+                out[i + j * n] = l
+    return out, bad
+
+
+def report_stream_loss(chk, what, missing, total, bad):
+    """the harness process itself did not deliver every answer: our time-out / a kill by the system is inconclusive, a crash of the
+    dispatcher (which only forks) is a broken stream"""
+    rcs = sorted(set(rc for rc, _ in bad))
+    detail = "%d of %d answers missing; harness exit codes %s; %s" % (missing, total, rcs, " / ".join(e for _, e in bad)[:400])
+    if all(rc in (124, 125, -9, -15, 137, 143) or tooling_failure(e) for rc, e in bad):
+        inconclusive(chk, "%s: harness stopped by a time-out / by the system" % what, detail)
+    else:
+        chk.broke("%s: the history harness died (lost output lines)" % what, detail)
+
+
+def resolve_watchdog(chk, hb, cls, hist, crash, tier, budget):
+    """A child stopped by the harness's own watchdog (CPU limit / wall-clock alarm / OOM killer) says nothing about the property.  The
+    history is run once more, ALONE, with much larger limits.  Only a hang that reproduces there while the same constructions finish
+    quickly on their own is specific to the history and is reported; everything else is recorded as inconclusive.
+    returns the output line to evaluate, or None"""
+    rec = {"class": cls, "history": hist, "first_run": crash}
+    chk.cov.setdefault("watchdog", []).append(rec)
+    if chk.failing:
+        rec["verdict"] = "not re-run: this run already has concrete failing inputs, the verdict does not depend on this history"
+        return None
+    if budget[0] <= 0:
+        rec["verdict"] = "inconclusive: not re-run (re-run budget of this check used up)"
+        inconclusive(chk, "history '%s %s' stopped by the harness watchdog (%s); not re-run" % (cls, hist, crash))
+        return None
+    budget[0] -= 1
+    cpu, wall = (150, 1500) if tier == "quick" else (400, 2700)
+    env = {"C16_CPU_LIMIT": str(cpu), "C16_WALL_LIMIT": str(wall)}
+    t0 = time.time()
+    rc, out, err = run_harness(hb, "%s %s\n" % (cls, hist), wall + 120, env)
+    rec["rerun_seconds"] = round(time.time() - t0, 1)
+    line = out[0] if out else None
+    crash2 = parse_line(line)[2] if line else "no answer (rc %s)" % rc
+    if line and (crash2 is None or crash2 not in WATCHDOG):
+        rec["verdict"] = "re-run alone with a CPU limit of %d s: completed; evaluated normally" % cpu
+        return line
+    rec["rerun"] = crash2
+    # control: the constructions of this history, each alone in a fresh process, same limits
+    ctl = sorted(set(e[3:] for e in hist.split() if e[0] == "c"))
+    worst, ctl_ok = 0.0, True
+    for q in ctl:
+        t1 = time.time()
+        rc, o2, _ = run_harness(hb, "%s c0:%s\n" % (cls, q), wall + 120, env)
+        worst = max(worst, time.time() - t1)
+        c2 = parse_line(o2[0])[2] if o2 else "no answer"
+        ctl_ok = ctl_ok and c2 is None
+    rec["control_constructions_alone"] = {"parameters": ctl, "all_completed": ctl_ok, "slowest_seconds": round(worst, 1)}
+    if ctl_ok and worst * 10 < rec["rerun_seconds"] and crash2 == "watchdog-cpu":
+        rec["verdict"] = "hang specific to the history: reproduced alone with %d s of CPU, the constructions alone need %.1f s" % (cpu, worst)
+        steps = parse_line(line)[1] if line else []
+        evs = hist.split()
+        ev = evs[len(steps)] if len(steps) < len(evs) else "end"
+        cat = category(ev, int(ev[1])) if ev != "end" else "destructors-at-end"
+        chk.fail_input("history:%s:hang" % cls, cat, {"class": cls, "history": hist, "during_event": ev, "cpu_limit_s": cpu, "control": rec["control_constructions_alone"]},
+                       "terminates", "no answer within %d s of CPU time (twice), while each construction of the history alone finishes in <= %.1f s" % (cpu, worst),
+                       "replay: echo '%s %s' | C16_CPU_LIMIT=%d c16_history" % (cls, hist, cpu))
+        return None
+    rec["verdict"] = "inconclusive: stopped again with generous limits, and the constructions alone are not quick either (machine load / memory)"
+    inconclusive(chk, "history '%s %s' stopped by the harness watchdog twice (%s, then %s with %d s CPU)" % (cls, hist, crash, crash2, cpu))
+    return None
+
+
+def gen_ctor_histories(have, tier):
+    """several objects of ONE class built in ONE process through every constructor overload, with different parameters, in both
+    orders, mixed with the usual constructor and with each other; `have` = the construct parameters q = P + 4V the class supports"""
+    hs = []
+    vs = sorted(set(q >> 2 for q in have if q >> 2))
+
+    def q(P, V):
+        return P + 4 * V
+    pairs = [(0, 1), (1, 0), (3, 2)] if tier == "quick" else [(0, 1), (1, 0), (2, 3), (3, 2), (0, 2), (3, 1), (2, 1)]
+    for V in vs:
+        for A, B in pairs:
+            if q(A, V) not in have or q(B, V) not in have:
+                continue
+            hs.append("c0:%d c1:%d u0 u1" % (q(A, V), q(B, V)))
+            hs.append("c0:%d c1:%d u1 u0 a0:1 u0 k2:1 d1 u2 u0" % (A, q(B, V)))        # the usual constructor first, then the overload
+            hs.append("c0:%d c1:%d u1 d0 u1 k0:1 u0" % (q(A, V), B))                  # the overload first, then the usual constructor
+        trip = [P for P in range(4) if q(P, V) in have]
+        if len(trip) >= 3:
+            hs.append("c0:%d c1:%d c2:%d u0 u1 u2 d0 u2 u1" % tuple(q(P, V) for P in trip[:3]))
+            hs.append("c0:%d c1:%d c2:%d u0 a0:2 u0 u1 a1:0 u1" % tuple(q(P, V) for P in reversed(trip[-3:])))
+        if len(trip) >= 2:
+            hs.append("c0:%d d0 c0:%d u0 c1:%d u1 u0" % (q(trip[0], V), q(trip[1], V), q(trip[0], V)))      # the first one is gone when the second is built
+            hs.append("c0:%d c1:%d a0:1 u0 d1 u0" % (q(trip[-1], V), q(trip[-1], V)))                   # same parameters twice, then assigned
+        for W in vs:
+            if W > V:
+                for A, B in (((0, 1),) if tier == "quick" else ((0, 1), (2, 3))):
+                    if q(A, V) in have and q(B, W) in have:
+                        hs.append("c0:%d c1:%d u0 u1 a1:0 u1" % (q(A, V), q(B, W)))
+                        hs.append("c0:%d c1:%d u0 u1 k2:0 d0 u2" % (q(B, W), q(A, V)))
+        # the SAME parameter set through two overloads (the objects may differ in derived members: base field of another degree,
+        # other irreducible polynomial), assigned in both directions: an operator= that skips members when "the parameters are equal"
+        for W in [0] + vs:
+            if W != V:
+                for A in ((0, 3) if tier == "quick" else (0, 1, 2, 3)):
+                    if q(A, V) in have and q(A, W) in have:
+                        hs.append("c0:%d c1:%d a0:1 u0 d1 u0" % (q(A, V), q(A, W)))
+    seen, out = set(), []
+    for h in hs:
+        if h not in seen:
+            seen.add(h); out.append(h)
+    return out
+
+
+def build_history_harness(chk):
+    hb, log = vf.build_harness("c16_history.C", deps=("c16_probes.h",))
+    if hb is None and tooling_failure(log):
+        hb, log = vf.build_harness("c16_history.C", deps=("c16_probes.h",), timeout=2400)      # once more, more time
+    if hb is None and tooling_failure(log):
+        inconclusive(chk, "history harness: the compiler ran out of time / memory; no histories in this run", log)
+        return None
+    if hb is None:
+        chk.broke("history harness does not compile against /repo", log)
+    return hb
 
 
 def run_histories(chk, rng, tier, classes=None):
-    hb, log = vf.build_harness("c16_history.C", deps=("c16_probes.h",))
+    hb = build_history_harness(chk)
     if hb is None:
-        chk.broke("history harness does not compile against /repo", log)
         return 0
     classes = classes or HIST_CLASSES
-    # isolated references
-    iso_in = "".join("%s c0:%d\n" % (c, p) for c in classes for p in range(4))
-    rc, out, err = vf.run_lines(hb, iso_in, timeout=600)
-    iso = {}
-    for line in out:
+    budget = [1 if tier == "quick" else 3]         # re-runs of histories stopped by the watchdog
+    # ---- isolated references: every constructor overload of every class, each in a process of its own
+    reqs = [(c, q) for c in classes for q in range(4 * NVARIANTS)]
+    out, bad = run_parallel(hb, ["%s c0:%d\n" % cq for cq in reqs], jobs=4, timeout=1500)
+    if bad:
+        report_stream_loss(chk, "isolated references", sum(1 for l in out if l is None), len(out), bad)
+    iso, have = {}, {}
+    for (c, q), line in zip(reqs, out):
+        if line is None:
+            continue
         cls, steps, crash = parse_line(line)
-        if steps:
-            ev, objs = steps[0]
-            if 0 in objs and crash is None:
-                iso[(cls, int(ev[3:]))] = objs[0]
-        if crash is not None:
-            chk.fail_input("history:%s:construct" % cls, "isolated", {"class": cls, "line": line[:200]}, "no crash", crash, "construction + probe in an empty process crashes")
+        if crash == "no-such-constructor":
+            continue
+        if crash in WATCHDOG:
+            line = resolve_watchdog(chk, hb, c, "c0:%d" % q, crash, tier, budget)
+            if line is None:
+                continue
+            cls, steps, crash = parse_line(line)
+        have.setdefault(c, set()).add(q)
+        if steps and crash is None and 0 in steps[0][1]:
+            if iso_ok(c, q):
+                iso[(c, q)] = steps[0][1][0]
+        elif crash is not None:
+            chk.fail_input("history:%s:construct" % c, "isolated", {"class": c, "constructor_overload": q >> 2, "parameter_set": q & 3, "line": line[:200]},
+                           "no crash", crash, "construction + probe in an empty process crashes")
+    # the overloads declared deterministic for classes whose usual constructor is randomised: build them once more, in another order;
+    # a difference means the declaration is wrong (then only the in-process lineage reference is used)
+    again = [(c, q) for (c, q) in sorted(iso, reverse=True) if c in NON_ISO]
+    out2, bad2 = run_parallel(hb, ["%s c0:%d\n" % cq for cq in again], jobs=2, timeout=1500)
+    for (c, q), line in zip(again, out2):
+        cls, steps, crash = parse_line(line) if line else (c, [], "no answer")
+        if not (steps and crash is None and steps[0][1].get(0) == iso[(c, q)]):
+            del iso[(c, q)]
+            chk.notes.append("%s constructor overload %d, parameter set %d: two isolated constructions differ (randomised?): lineage reference only" % (c, q >> 2, q & 3))
+    chk.cov["constructor_overloads"] = {c: sorted(set(q >> 2 for q in have.get(c, ()))) for c in classes}
+    chk.cov["constructor_overload_names"] = VARIANT_NAMES
+    # ---- histories
     hists = gen_histories(rng, tier)
     want = [(c, h) for c in classes for h in hists]
     mh = gen_mut_histories(rng, tier)
     want += [(c, h) for c in classes if c in MUTABLE for h in mh]
+    nct = {}
+    for c in classes:
+        ch = gen_ctor_histories(have.get(c, set()), tier)
+        nct[c] = len(ch)
+        want += [(c, h) for h in ch]
+    chk.cov["constructor_histories_per_class"] = nct
     chk.cov["mutator_histories_per_class"] = len(mh)
     chk.cov["classes_with_mutator"] = [c for c in classes if c in MUTABLE]
-    ok, out, err = run_parallel(hb, ["%s %s\n" % (c, h) for c, h in want], jobs=6 if tier == "quick" else 12)
-    if not ok:
-        chk.broke("history harness failed (lost output lines)", err)
-        return 0
-    ncmp = 0
+    out, bad = run_parallel(hb, ["%s %s\n" % (c, h) for c, h in want], jobs=6 if tier == "quick" else 12)
+    if bad:
+        report_stream_loss(chk, "histories", sum(1 for l in out if l is None), len(out), bad)
+    ncmp = nrun = 0
     per_class = {}
+    forms = {}
     for (c, h), line in zip(want, out):
+        if line is None:
+            continue
         cls, steps, crash = parse_line(line)
+        if crash in WATCHDOG:
+            if crash == "skipped-after-watchdog":
+                chk.cov["skipped_after_watchdog"] = chk.cov.get("skipped_after_watchdog", 0) + 1
+                continue
+            line = resolve_watchdog(chk, hb, c, h, crash, tier, budget)
+            if line is None:
+                continue
+            cls, steps, crash = parse_line(line)
         n = check_history(chk, c, h, steps, crash, iso)
         ncmp += n
+        nrun += 1
         per_class[c] = per_class.get(c, 0) + 1
+        for t in h.split():
+            if t[0] == "c":
+                k = "overload %d" % (int(t[3:]) >> 2)
+                forms.setdefault(c, {}).setdefault(k, 0)
+                forms[c][k] += 1
         nontrivial = any(t[0] in "kas" for t in h.split()) or len(set(t[1] for t in h.split())) > 1
         chk.count((c, h), nontrivial)
-        if len(chk.cov["samples"]) < 10 and nontrivial and (len(chk.cov["samples"]) * 977) % len(want) < 10 ** 9 and hash((c, h)) % 211 == 0:
+        if len(chk.cov["samples"]) < 10 and nontrivial and hash((c, h)) % 211 == 0:
             chk.sample({"class": c, "history": h, "observed": line[:300]})
-    if not chk.cov["samples"] and want:
+    if not chk.cov["samples"] and want and out[len(want) // 2]:
         chk.sample({"class": want[len(want) // 2][0], "history": want[len(want) // 2][1], "observed": out[len(want) // 2][:300]})
+    if chk.cov.get("skipped_after_watchdog"):
+        inconclusive(chk, "%d histories skipped after the watchdog stopped a history of their class" % chk.cov["skipped_after_watchdog"])
     chk.cov["histories_per_class"] = len(hists)
+    chk.cov["histories_evaluated"] = nrun
+    chk.cov["histories_evaluated_per_class"] = per_class
+    chk.cov["construct_events_per_class_and_overload"] = forms
     chk.cov["classes_in_history_harness"] = len(classes)
     chk.cov["probe_comparisons"] = ncmp
     chk.cov["isolated_references"] = len(iso)
@@ -468,11 +759,10 @@ def main(tier, replay=None):
         "value-semantic members (std::vector, Integer, ruint, GivRandom, Indeter) copy faithfully (C17 covers Array0 / the allocator)",
         "documented globals excluded by the property text: Rational::flags, allocator free lists, GMP random state; randomised operations "
         "(those advancing a generator member or the GMP random state) are outside the claim",
-        "lazily cached members (IntRNSsystem/RNSsystem _ck, _prod) are outside the proved fragment: history harness only",
     ]
     if replay:
         rp = json.load(open(replay))
-        hb, log = vf.build_harness("c16_history.C", deps=("c16_probes.h",))
+        hb = build_history_harness(chk)
         for f in rp.get("failing_inputs", []):
             c = f.get("case", {})
             if hb and "history" in c:
@@ -480,9 +770,15 @@ def main(tier, replay=None):
                 print(out.strip()[:2000])
     descs, meta = generate(chk)
     res = vf.coq_check_props(AREA)
+    if not res["ok"] and not res["forbidden"] and tooling_failure(res["log"]):
+        res = vf.coq_check_props(AREA)          # once more
     keep = [t for t in res["theorems"] if t.startswith("C16_")]          # coq/C16 also holds the C18 theorems (checks/C18.py)
     res = dict(res, theorems=keep, assumptions={k: v for k, v in res["assumptions"].items() if k in keep})
-    chk.proof_result(res, AREA)
+    if not res["ok"] and not res["forbidden"] and tooling_failure(res["log"]):
+        chk.cov["obligations"] += len(keep)
+        inconclusive(chk, "Coq build of coq/C16 ran out of time / memory: %d obligations not re-checked in this run" % len(keep), res["log"])
+    else:
+        chk.proof_result(res, AREA)
     if descs:
         n_meth, n_ok, partial = structural_c16(chk, descs)
         chk.cov["claimed_const_methods"] = n_meth
@@ -491,6 +787,15 @@ def main(tier, replay=None):
         chk.cov["mutators_decided"] = sorted("%s::%s writes %s" % (d["name"], m["name"], ",".join(m.get("mut_writes", [])))
                                              for d in descs if d["name"] not in NO_VERDICT for m in d["methods"] if om.Mirror(d).is_mutator(m))[:40]
         chk.cov["classes"] = describe_for_evidence(descs)
+        chk.cov["constructors_analysed"] = {d["name"]: sorted(set("%s(%s)%s" % (c.get("cls"), c.get("params", ""), " [template pattern]" if c.get("pattern") else "") for c in d.get("ctors") or []))
+                                            for d in descs}
+        chk.cov["constructors_not_analysed"] = {d["name"]: d.get("ctors_unanalysed") for d in descs if d.get("ctors_unanalysed")}
+        chk.cov["classes_with_pure_constructors"] = sum(1 for d in descs if om.Mirror(d).ctor_pure())
+        chk.cov["benign_statics"] = {d["name"]: d.get("benign_statics") for d in descs if d.get("benign_statics")}
+        for d in descs:
+            io = om.Mirror(d).init_offenders()
+            if io and d["name"] not in NO_VERDICT:
+                chk.notes.append("%s: constructor description inconsistent for %s (member default-initialised by the copy constructor but not by every constructor)" % (d["name"], ",".join(io)))
         chk.cov["translator"] = {k: meta.get(k) for k in ("ast_objects", "decls_indexed", "classes_in_dump", "stats", "cached", "seconds", "nested_domain_members")}
         for d in descs:
             for n in d.get("notes", []):
